@@ -416,6 +416,7 @@ def run_until(cmd, done, deadline=20.0, settle=0.0, env=None):
     fd = p.stdout.fileno()
     os.set_blocking(fd, False)
     timed_out = False
+    chunk = None
     while True:
         now = time.time()
         if t_settle is not None and now >= t_settle:
@@ -438,6 +439,12 @@ def run_until(cmd, done, deadline=20.0, settle=0.0, env=None):
         if p.poll() is not None and not r:
             break
     rc = p.poll()
+    if rc is None and chunk == b"":
+        # stdout reached end of file: the process is exiting; its status is available a moment later
+        try:
+            rc = p.wait(timeout=30)
+        except subprocess.TimeoutExpired:
+            rc = None
     if rc is None:
         p.kill()
         p.wait()
